@@ -22,8 +22,9 @@ TraceLog == ndJsonDeserialize("trace.ndjson")
 
 VARIABLES l,        \* position in the trace
           rstart,   \* the blocks that were committed when the current reader started
-          qnometa   \* the current (query-engine) reader tried to open the metadata of a day that had none yet
-tvars == <<vars, l, rstart, qnometa>>
+          qnometa,  \* the current (query-engine) reader tried to open the metadata of a day that had none yet
+          qrenames  \* number of renames of the day directory since the current reader started
+tvars == <<vars, l, rstart, qnometa, qrenames>>
 
 Pay(q) == [c \in Cols |-> [raw |-> q[c][1], enc |-> q[c][2]]]
 
@@ -81,7 +82,7 @@ ReaderVerdict(e) ==
    \* conformance level (GPDir reader only): the model reader ended the same way with the same result
    conf     |-> e.kind # "gpdir" \/ (/\ (rpc = "err") = (e.err # "")
                                     /\ (rpc = "done" => ObsRes(e) = ModelRes)),
-   nometa_day |-> NoMetaDay, nometa_seen |-> qnometa, model_rpc |-> rpc, model_why |-> rwhy, ncommitted |-> Len(committed), nstart |-> Len(rstart),
+   nometa_day |-> NoMetaDay, nometa_seen |-> qnometa, renames_during |-> qrenames, model_rpc |-> rpc, model_why |-> rwhy, ncommitted |-> Len(committed), nstart |-> Len(rstart),
    err |-> e.err]
 
 Step(e) ==
@@ -117,7 +118,7 @@ Step(e) ==
     [] e.ev = "TornWrite"    -> Fault(e.k)
     [] e.ev = "Observe"      -> Stutter /\ PrintT(<<"INFO", ToJson(Verdict(e))>>)
 
-TraceInit == Init /\ l = 1 /\ rstart = <<>> /\ qnometa = FALSE
+TraceInit == Init /\ l = 1 /\ rstart = <<>> /\ qnometa = FALSE /\ qrenames = 0
 
 TraceNext ==
   /\ l <= Len(TraceLog)
@@ -126,6 +127,8 @@ TraceNext ==
   /\ qnometa' = IF TraceLog[l].ev \in {"R_Start", "Reset"} THEN FALSE
                  ELSE IF TraceLog[l].ev = "Q_Step" /\ TraceLog[l].point \in {"r.openmeta", "r.reopenmeta"} /\ NoMetaDay THEN TRUE
                  ELSE qnometa
+  /\ qrenames' = IF TraceLog[l].ev \in {"R_Start", "Reset"} THEN 0
+                  ELSE IF TraceLog[l].ev = "W_RenameDir" THEN qrenames + 1 ELSE qrenames
   /\ rstart' = IF TraceLog[l].ev = "R_Start" THEN committed
                 ELSE IF TraceLog[l].ev = "Reset" THEN <<>> ELSE rstart
 
